@@ -4,7 +4,7 @@ from symx.runner import Ob
 ID = "C19"
 MG = "breezy.merge"
 M3 = "merge3"
-FUNCTIONS = [MG + ":Merge3Merger.text_merge", MG + ":Merge3Merger.get_lines", M3 + ":Merge3.merge_lines",
+FUNCTIONS = [MG + ":WeaveMerger.text_merge", MG + ":Merge3Merger.text_merge", MG + ":Merge3Merger.get_lines", M3 + ":Merge3.merge_lines",
              M3 + ":Merge3.merge_regions", M3 + ":Merge3.find_sync_regions", M3 + ":Merge3.reprocess_merge_regions"]
 STUBS = ["sequence matcher (patiencediff.PatienceSequenceMatcher, compiled) -> stub whose matching blocks are the alignment "
          "of the symbolic edit scripts base->THIS and base->OTHER (kept lines match); for any other pair of regions it "
@@ -17,7 +17,8 @@ ASSUMPTIONS = ["THIS and OTHER are derived from BASE by per-line edit scripts (k
                "breezy's internal conflict sentinel",
                "the reference for 'has conflicting regions' is merge3's own region computation on the same inputs"]
 OUTSIDE = ["real trees and TreeTransform, helper-file contents on disk, conflict resolution (take-this / take-other)",
-           "weave and lca merge types", "missing trailing newlines", "texts longer than the bound"]
+           "the plan-based merges of the weave and lca merge types (versioned files, compiled); only what their text_merge "
+           "does with the plan's result is covered", "missing trailing newlines", "texts longer than the bound"]
 
 SENTINEL = b"!START OF MERGE CONFLICT!" + b"I HOPE THIS IS UNIQUE"
 K_SENTINEL = "C19-line-starts-with-sentinel"
@@ -207,10 +208,61 @@ def ob_text_merge(cx):
     cx.cover(mode)
 
 
+def ob_plan_text_merge(cx):
+    """WeaveMerger / LCAMerger.text_merge: the plan-based merge (outside: versioned files, compiled) hands back the merged
+    lines and, when it found conflicting regions, the reconstructed base text - which may be EMPTY.  A conflict must be
+    recorded, with helper files, exactly when the plan reported one, whatever the base text looks like."""
+    M = cx.mod(MG)
+    klass = cx.pick("merger", ["WeaveMerger", "LCAMerger"])
+    conflicts = bool(cx.choose("plan_has_conflicts", 0, 1))
+    nbase = cx.choose("nbase", 0, 2)
+    base_lines = [cx.bytes("base%d" % i, 1, b"xy") + b"\n" for i in range(nbase)] if conflicts else None
+    lines = [cx.bytes("line%d" % i, 1, b"xy") + b"\n" for i in range(cx.choose("nlines", 0, 2))]
+
+    class TF:
+        @staticmethod
+        def check_text_lines(ls):
+            return None
+    M.textfile = TF
+    merger = object.__new__(getattr(M, klass))
+    merger.tt = _TT()
+    merger._raw_conflicts = []
+    merger._merged_lines = lambda this_path: (iter(lines), base_lines)
+    dumped, named = [], []
+    group = []
+
+    def dump(name, paths, parent_id, lines=None, no_base=False):
+        named.append((name, parent_id))
+        dumped.append((lines, no_base))
+        return group
+    merger._dump_conflicts = dump
+    merger.text_merge("trans-id", ("p", "p", "p"))
+    out = merger.tt.created
+    cx.require(len(out) == len(lines) and all(a is b for a, b in zip(out, lines)), "the merged lines were not written as they are")
+    recorded = ("text conflict", "trans-id") in merger._raw_conflicts
+    cx.require(recorded == conflicts, "text conflict %s although the merge plan %s conflicting regions (base text of %d lines)" %
+               ("recorded" if recorded else "not recorded", "has" if conflicts else "has no", nbase))
+    if conflicts:
+        cx.require(len(dumped) == 1 and dumped[0][0][0] is base_lines and dumped[0][1] is False,
+                   "helper files are not written with the reconstructed BASE text")
+        cx.require(named == [("file", "parent")], "helper files are named / placed after %r" % (named,))
+        cx.require(group == ["trans-id"], "the merged file is not part of the conflict's file group")
+        cx.cover("conflict")
+        if nbase == 0:
+            cx.cover("conflict_with_empty_base")
+    else:
+        cx.require(not dumped, "helper files written without a conflict")
+        cx.cover("clean")
+    cx.observe("recorded", recorded)
+
+
 def obligations(tier):
     q = tier == "quick"
     p = dict(nbase=2 if q else 3, sentinel=True)
-    return [Ob("text_merge", ob_text_merge, [M3, MG], p, 900 if q else 7200, 3 if q else 1,
+    return [Ob("plan_text_merge", ob_plan_text_merge, [MG], {}, 600, 1, ["conflict", "conflict_with_empty_base", "clean"],
+               bounds="weave / lca merge types: merged text <= 2 lines, plan with or without conflicts, reconstructed base text of "
+                      "0..2 lines (symbolic bytes)"),
+            Ob("text_merge", ob_text_merge, [M3, MG], p, 900 if q else 7200, 3 if q else 1,
                ["conflict", "clean", "independent", "other_unchanged", "this_unchanged", "identical"], known=[K_SENTINEL],
                bounds="BASE <= %(nbase)d lines; THIS / OTHER by per-line keep/delete/replace + optional appended line; symbolic "
                       "1-byte line contents (or the sentinel line); show_base / reprocess options" % p)]
